@@ -1274,6 +1274,9 @@ def struct_blocks(R, nrandom, light=False):
             for n in wrong:
                 add([asg(sig("o%d_0" % n, n), src)], "struct-wrong-width")
                 add([asg(dst, sig("i%d_0" % n, n))], "struct-wrong-width")
+            # an integer literal on the RHS: the widest that fits, and one bit too wide
+            add([asg(dst, num((1 << w) - 1, True))])
+            add([asg(dst, num(1 << w, True))], "struct-wrong-width")
             tname = {"k": "tmpdef", "name": "u"}
             tmp = {"k": "tmp", "name": "u"}
             add([asg(tname, src), asg(dst, tmp)])
